@@ -4,6 +4,8 @@ import (
 	"bytes"
 	"fmt"
 	"github.com/fxamacker/cbor/v2"
+	"github.com/taurusgroup/multi-party-sig/pkg/math/curve"
+	"github.com/taurusgroup/multi-party-sig/protocols/frost"
 	"io"
 
 	"github.com/taurusgroup/multi-party-sig/pkg/party"
@@ -185,12 +187,35 @@ func runC11(c *fw.Ctx) {
 			mB = d
 		}
 	case "variant":
-		// the same share used in the other protocol variant (frost <-> taproot) cannot be built from
-		// one config type; compare instead the taproot and native variants over the same share
-		other := scen.PrepMaterial(c, scen.FROST+scen.FROSTTaproot-p, ids, t, "prep") // same labels => same shares? not guaranteed
-		_ = other
-		dim = "session-id"
-		sidB = append(append([]byte{}, sid...), 2)
+		// the same share used under both protocol variants: every taproot key share is also a valid
+		// plain one (same secret share and table, the x-only key lifted to its even-y point). Attempt A
+		// signs with frost.SignTaproot, attempt B with frost.Sign, everything else equal.
+		if p != scen.FROSTTaproot {
+			p = scen.FROSTTaproot
+			m = scen.PrepMaterial(c, p, ids, t, "prep-taproot")
+			mA = m
+		}
+		plain := &scen.Material{Proto: scen.FROST, IDs: m.IDs, T: m.T, Cfg: map[party.ID]interface{}{}}
+		okAll := true
+		for _, id := range ids {
+			tc := m.Cfg[id].(*frost.TaprootConfig)
+			Y, err := curve.Secp256k1{}.LiftX(tc.PublicKey)
+			if err != nil {
+				okAll = false
+				break
+			}
+			vs := map[party.ID]curve.Point{}
+			for k, v := range tc.VerificationShares {
+				vs[k] = v
+			}
+			plain.Cfg[id] = &frost.Config{ID: tc.ID, Threshold: tc.Threshold, PrivateShare: tc.PrivateShare, PublicKey: Y, ChainKey: tc.ChainKey, VerificationShares: party.NewPointMap(vs)}
+		}
+		if !okAll {
+			dim = "session-id"
+			sidB = append(append([]byte{}, sid...), 2)
+		} else {
+			mB = plain
+		}
 	}
 	labelA := c.Label("rng", "A")
 	labelB := c.Label("rng", "B")
